@@ -61,7 +61,7 @@ type Vote struct {
 }
 
 type Op struct {
-	Kind   string `json:"kind"` // delegate undelegate redelegate slash jail unjail endblock mint burn send stash unstash tally mintmsg burnmsg
+	Kind   string `json:"kind"` // delegate undelegate redelegate slash jail unjail endblock mint burn send stash unstash tally mintmsg burnmsg savlist
 	A      int    `json:"a,omitempty"`
 	B      int    `json:"b,omitempty"`
 	V      int    `json:"v,omitempty"`
@@ -72,6 +72,7 @@ type Op struct {
 	Factor string `json:"factor,omitempty"`
 	Mature bool   `json:"mature,omitempty"`
 	Place  string `json:"place,omitempty"` // savings | earn
+	Listed bool   `json:"listed,omitempty"` // savlist: "bkava" is / is not in the x/savings SupportedDenoms after the parameter change
 	Votes  []Vote `json:"votes,omitempty"`
 }
 
@@ -215,6 +216,7 @@ type snap struct {
 	redel  [][]bool
 	ubd    []*big.Int
 	bonded *big.Int // staking TotalBondedTokens
+	listed bool     // "bkava" in the x/savings SupportedDenoms parameter
 }
 
 func statusIdx(s stakingtypes.BondStatus) int {
@@ -285,6 +287,11 @@ func (w *world) snapAt(ctx sdk.Context) *snap {
 		s.redel = append(s.redel, rrow)
 	}
 	s.bonded = w.sk.TotalBondedTokens(ctx).BigInt()
+	for _, d := range svk.GetParams(ctx).SupportedDenoms {
+		if d == liquidtypes.DefaultDerivativeDenom {
+			s.listed = true
+		}
+	}
 	return s
 }
 
@@ -381,6 +388,29 @@ func (w *world) exec(op Op) (res result) {
 		if res.cls == ClassOk {
 			res.tin = w.tallyInputs(w.ctx, op.Votes)
 		}
+		return
+	case "savlist":
+		// a savings parameter change (governance): "bkava" removed from / put back into
+		// SupportedDenoms through Keeper.SetParams; the other supported denoms are kept
+		res.cls, res.err = Atomically(w.ctx, func(ctx sdk.Context) error {
+			svk := w.tApp.GetSavingsKeeper()
+			p := svk.GetParams(ctx)
+			var ds []string
+			for _, d := range p.SupportedDenoms {
+				if d != liquidtypes.DefaultDerivativeDenom {
+					ds = append(ds, d)
+				}
+			}
+			if op.Listed {
+				ds = append(ds, liquidtypes.DefaultDerivativeDenom)
+			}
+			p.SupportedDenoms = ds
+			if err := p.Validate(); err != nil {
+				return err
+			}
+			svk.SetParams(ctx, p)
+			return nil
+		})
 		return
 	}
 	res.cls, res.err = Atomically(w.ctx, func(ctx sdk.Context) error {
